@@ -7458,3 +7458,76 @@ def rs2(m, run, rule='RS2.ray-intersection-status'):
             bad.append((what, why))
     run.ob(rule, '%s :: %d pairs of rays' % (fi.key, len(cases)), not bad, 'INTERSECT with the parameters of the common point, COLINEAR, SKEW as the rays are' if not bad else '%s: %s   [%d of %d]' % (bad[0][0], bad[0][1], len(bad), len(cases)),
            'geomdl/ray.py:%d in %s' % (fi.node.lineno, fi.key))
+
+
+# ====================================================================================== C15: the quadrilateral mesh on a labelled grid
+def qm2(m, run, rule='QM2.quad-mesh-on-labelled-grid'):
+    """QM2: _tessellate.make_quad_mesh interpreted on labelled points of non-square and square grids (2 x 2 .. 4 x 5, 5 x 3) with the element
+    classes replaced by recorders: vertex k carries point k and the id k, its (u, v) is (k // size_v / (size_u - 1), k % size_v /
+    (size_v - 1)); there is exactly one quad per cell (i, j), listed with j varying first, ids 0, 1, 2 ..., whose corners are the vertices
+    (i, j), (i+1, j), (i+1, j+1), (i, j+1) in this cyclic order"""
+    fi = m.func('_tessellate.make_quad_mesh')
+    bad, cnt = [], 0
+    for su, sv in ((2, 2), (2, 3), (3, 2), (3, 3), (4, 5), (5, 3)):
+        cnt += 1
+        made = {'Vertex': [], 'Quad': []}
+
+        def mk(cls):
+            def f(sk, node, *a, **k):
+                b = Bag(cls, id=k.get('id', None), data=list(a), uv=[Tok('PH0'), Tok('PH0')])
+                made[cls].append(b)
+                return b
+            return f
+        ab = dict(STD_ABSTRACTED)
+        ab[('class', ('elements', 'Vertex'))] = mk('Vertex')
+        ab[('class', ('elements', 'Quad'))] = mk('Quad')
+        P = pts(su * sv, 3, labelled=True)
+        sk = SK(m, ab)
+        why = None
+        try:
+            out = sk.call(fi, [P, su, sv], {})
+            verts, quads = out if isinstance(out, tuple) and len(out) == 2 else (None, None)
+            if not isinstance(verts, list) or not isinstance(quads, list):
+                why = 'does not return (vertices, quads)'
+            elif len(verts) != su * sv:
+                why = '%d vertices for %d points' % (len(verts), su * sv)
+            else:
+                for k, v in enumerate(verts):
+                    f = footprint(v._a['data']) if isinstance(v, Bag) else None
+                    uv = v._a.get('uv') if isinstance(v, Bag) else None
+                    wuv = [(k // sv) / float(max(su - 1, 1)), (k % sv) / float(max(sv - 1, 1))]
+                    if not f or f != frozenset([k]) or v._a.get('id') != k:
+                        why = 'vertex %d carries point %s and the id %r' % (k, sorted(f) if f else None, v._a.get('id') if isinstance(v, Bag) else None)
+                    elif not isinstance(uv, (list, tuple)) or len(uv) != 2 or not all(isinstance(x, (int, float)) for x in uv) or any(abs(x - y) > 1e-12 for x, y in zip(uv, wuv)):
+                        why = 'vertex %d has the parametric position %r, its point was sampled at %r' % (k, uv, wuv)
+                    if why:
+                        break
+            if why is None:
+                want = []
+                for i in range(su - 1):
+                    for j in range(sv - 1):
+                        want.append((j + sv * i, j + sv * (i + 1), j + 1 + sv * (i + 1), j + 1 + sv * i))
+                got = []
+                for q in quads:
+                    ids = tuple(x._a.get('id') if isinstance(x, Bag) else None for x in (q._a['data'] if isinstance(q, Bag) else []))
+                    got.append(ids)
+
+                def cyc(t):
+                    """a quad up to its starting corner and orientation"""
+                    rots = [t[r:] + t[:r] for r in range(4)] + [tuple(reversed(t))[r:] + tuple(reversed(t))[:r] for r in range(4)]
+                    return min(rots)
+                if len(got) != len(want):
+                    why = '%d quads, the %d x %d grid has %d cells' % (len(got), su, sv, len(want))
+                elif [cyc(g) if len(g) == 4 and None not in g else g for g in got] != [cyc(w) for w in want]:
+                    k_ = next(i_ for i_, (g, w) in enumerate(zip(got, want)) if len(g) != 4 or None in g or cyc(g) != cyc(w))
+                    why = 'quad %d has the corners %s; cell (%d, %d) has %s' % (k_, got[k_], k_ // (sv - 1), k_ % (sv - 1), want[k_])
+                elif [q._a.get('id') for q in quads] != list(range(len(quads))):
+                    why = 'the quads are not numbered 0, 1, 2, ...'
+        except Violation as v:
+            why = '%s %s' % (v.msg, v.where())
+        except Unsupported as ex:
+            raise AnalysisError('%s: interpreter met an unsupported construct: %s' % (fi.key, ex))
+        if why:
+            bad.append(('%d x %d grid' % (su, sv), why))
+    run.ob(rule, '%s :: %d grids' % (fi.key, cnt), not bad, 'one quad per cell with the four corners of that cell in cyclic order; vertices numbered like the points' if not bad else
+           '%s: %s   [%d of %d]' % (bad[0][0], bad[0][1], len(bad), cnt), 'geomdl/_tessellate.py:%d in %s' % (fi.node.lineno, fi.key))
